@@ -93,6 +93,15 @@ func suiteNode(c *Ctx) {
 	c.Class("scenario/newview-validated-during-own-timeout")
 	scenarioVoteWithBlockWithoutProof(c)
 	c.Class("scenario/vote-with-block-without-proof")
+	scenarioTwoLocksHigh(c)
+	c.Class("scenario/two-locks-high")
+	scenarioEarlyLeaderPrepare(c)
+	c.Class("scenario/early-leader-prepare")
+	scenarioCommitReplays(c, 0)
+	scenarioCommitReplays(c, 1)
+	c.Class("scenario/commit-replays")
+	scenarioVoteSignatureReplay(c)
+	c.Class("scenario/vote-signature-replay")
 	// adversarial scenarios: Byzantine members of total weight <= f, all strategies
 	nadv := 60
 	if c.Thorough() {
@@ -596,6 +605,24 @@ func scenarioProofMutationSweep(c *Ctx) *Net {
 		{"proof-other-instance", func(p *protocol.PreparedProofBuilder) {
 			p.PreprepareBlockRef.InstanceId, p.PrepareBlockRef.InstanceId = 7, 7
 			resignPP(p, byz)
+		}},
+		// the signatures over a foreign-instance reference are ones the same members could have issued in that instance (same keys)
+		{"p-ref-other-instance-resigned", func(p *protocol.PreparedProofBuilder) {
+			p.PrepareBlockRef.InstanceId = 1100
+			for i, s0 := range p.PrepareSenders {
+				p.PrepareSenders[i] = a.senderB(s0.MemberId, h, p.PrepareBlockRef.Build().Raw())
+			}
+		}},
+		{"pp-ref-other-instance-resigned", func(p *protocol.PreparedProofBuilder) {
+			p.PreprepareBlockRef.InstanceId = 1100
+			resignPP(p, byz)
+		}},
+		{"both-refs-other-instance-resigned", func(p *protocol.PreparedProofBuilder) {
+			p.PreprepareBlockRef.InstanceId, p.PrepareBlockRef.InstanceId = 1100, 1100
+			resignPP(p, byz)
+			for i, s0 := range p.PrepareSenders {
+				p.PrepareSenders[i] = a.senderB(s0.MemberId, h, p.PrepareBlockRef.Build().Raw())
+			}
 		}},
 		{"proof-ref-types", func(p *protocol.PreparedProofBuilder) {
 			p.PreprepareBlockRef.MessageType = protocol.LEAN_HELIX_PREPARE
